@@ -14,10 +14,11 @@
     `GenomeOk g`            - node ids pairwise different, every gene endpoint / module wire names a genome node,
                               control-node ids fresh;
     `enabledMods g = []`    - for the edge / From / To theorems only (no enabled module): with enabled modules these
-                              queries are covered by the correspondence and the executable specification only; the
-                              code has a defect there (`ctrl_overlap_defect`, known finding).
+                              queries are covered by the correspondence and the executable specification only
+                              (`ctrl_overlap_legacy_counterexample`: the pre-513f15a code was wrong there).
 -/
 import GoNeat.Proofs.Genesis
+import GoNeat.Model.LegacyGenesis
 
 namespace GoNeat.C11
 open GoNeat GoNeat.Genesis
@@ -73,6 +74,20 @@ theorem genesis_counts (g : Genome W) (netId : Int) (net : Net W) (h : genesis g
   obtain ⟨h1, h2⟩ := genesis_counts' h
   unfold complexity specNodeCount specLinkCount enabledMods enabledGenes
   exact ⟨h1, h2, by rw [h1, h2]⟩
+
+omit [DecidableEq W] in
+/-- a newly inserted enabled gene shows in the phenotype: the network built AFTER `geneInsert` (what an add-link
+    baby is evaluated with since 585232e) has exactly one link more than the one built before -/
+theorem new_gene_adds_a_link (g : Genome W) (x : Gene W) (netId : Int) (stale fresh : Net W) (hx : x.en = true)
+    (hs : genesis g netId = .ok stale) (hf : addLinkPhenotype g x netId = .ok fresh) :
+    linkCount fresh = linkCount stale + 1 ∧ nodeCount fresh = nodeCount stale := by
+  obtain ⟨h1, h2⟩ := genesis_counts' hs
+  obtain ⟨h3, h4⟩ := genesis_counts' hf
+  simp only at h3 h4
+  rw [h1, h2, h3, h4]
+  unfold geneInsert
+  rw [filter_insertAt_length (·.en) g.genes _ x hx]
+  omega
 
 /-! ## graph view -/
 
@@ -228,15 +243,40 @@ example : node? (netOf modular) 10 = some (10, Kind.hidden, 5) ∧ node? (netOf 
     hasEdgeFromTo (netOf modular) 4 10 = true ∧ hasEdgeFromTo (netOf modular) 10 5 = true ∧
     hasEdgeFromTo (netOf modular) 10 4 = false ∧ hasEdgeBetween (netOf modular) 10 4 = true := by decide
 
-/-- KNOWN FINDING (unchanged code, modelled as it is): a module that reads AND writes the same node.  The phenotype is
-    expressed correctly and `From(10)` lists node 4, but the directed edge query `10 → 4` is denied - `edgeBetween`
-    returns at the matching INPUT wire without looking at the output wires - while the specification has the edge.
-    (`10 → 5` is found.)  Repair proposed in notes/proposed_fix_C11.patch. -/
-theorem ctrl_overlap_defect :
+/-- the repaired control-node branch: a module that reads AND writes node 4 - the edge `10 → 4` is found -/
+example : GenomeOk overlap = true ∧ expresses overlap 7 (netOf overlap) = true ∧
+    fromIds (netOf overlap) 10 = [some 4, some 5] ∧ specHasEdge overlap 10 4 = true ∧
+    hasEdgeFromTo (netOf overlap) 10 4 = true ∧ weight? (netOf overlap) 10 4 = some 22 ∧
+    hasEdgeFromTo (netOf overlap) 4 10 = true ∧ weight? (netOf overlap) 4 10 = some 21 ∧
+    hasEdgeFromTo (netOf overlap) 10 5 = true ∧ hasEdgeBetween (netOf overlap) 10 4 = true := by decide
+
+/-- the pre-513f15a `edgeBetween` (Model/LegacyGenesis.lean) violates C11: the phenotype is expressed correctly and
+    `From(10)` lists node 4, but the directed edge query `10 → 4` is denied - the search returned at the matching
+    INPUT wire without looking at the output wires - while the specification has the edge (`10 → 5` is found) -/
+theorem ctrl_overlap_legacy_counterexample :
     GenomeOk overlap = true ∧ expresses overlap 7 (netOf overlap) = true ∧
     fromIds (netOf overlap) 10 = [some 4, some 5] ∧ specHasEdge overlap 10 4 = true ∧
-    hasEdgeFromTo (netOf overlap) 10 4 = false ∧ weight? (netOf overlap) 10 4 = none ∧
-    hasEdgeFromTo (netOf overlap) 10 5 = true := by decide
+    Legacy.hasEdgeFromTo (netOf overlap) 10 4 = false ∧ Legacy.weight? (netOf overlap) 10 4 = none ∧
+    Legacy.hasEdgeFromTo (netOf overlap) 10 5 = true := by decide
+
+/-- the gene `mutateAddLink` adds: 5 → 4 -/
+private def newGene : Gene Nat := gene 8 5 4 18 true false
+
+private def netOfE (r : Except Stop (Net Nat)) : Net Nat :=
+  match r with
+  | .ok n => n
+  | .error _ => { id := 0, nodes := [], inputs := [], outputs := [] }
+
+/-- the pre-585232e phenotype of an add-link baby (built before the insert) violates C11: it does not express the
+    mutated genome - the new link 5 → 4 is missing - whereas the repaired one does -/
+theorem stale_phenotype_legacy_counterexample :
+    GenomeOk { plain with genes := geneInsert plain.genes newGene } = true ∧
+    expresses { plain with genes := geneInsert plain.genes newGene } 7 (netOfE (Legacy.addLinkPhenotype plain newGene 7)) = false ∧
+    hasEdgeFromTo (netOfE (Legacy.addLinkPhenotype plain newGene 7)) 5 4 = false ∧
+    linkCount (netOfE (Legacy.addLinkPhenotype plain newGene 7)) = 5 ∧
+    expresses { plain with genes := geneInsert plain.genes newGene } 7 (netOfE (addLinkPhenotype plain newGene 7)) = true ∧
+    hasEdgeFromTo (netOfE (addLinkPhenotype plain newGene 7)) 5 4 = true ∧
+    linkCount (netOfE (addLinkPhenotype plain newGene 7)) = 6 := by decide
 
 end Examples
 
